@@ -4,6 +4,7 @@ package vlib
 
 import (
 	"fmt"
+	"math/bits"
 
 	"pgregory.net/rapid"
 )
@@ -24,6 +25,9 @@ type Profile struct {
 	OtherLogPct int            // percentage of ops aimed at logs other than log 0
 	Decorate    int            // percentage of honest ops that get extension lines / extra sigs
 	MaxJunkSigs int            // bound on "unknown" extra signature lines per op
+	FaultPct    int            // percentage of ops that get an injected storage fault
+	NoReplay    bool           // never reuse bytes/proofs of other ops (needed for isolation comparisons)
+	PlantPct    int            // percentage of refresh ops preceded by planting a day-old cosignature
 }
 
 // ProdWKeys is the key set cmd/omniwitness configures: legacy + cosignature/v1 with
@@ -34,6 +38,34 @@ var ProdWKeys = []WKSpec{{Label: "wit", Name: "witness.example/w", Cosig: false}
 var LegacyWKeys = []WKSpec{{Label: "wit", Name: "witness.example/w", Cosig: false}}
 
 var origins = []string{"example.com/log", "example.com/log2", "example.com/log/sub", "example.com", "rekor.example - 123", "лог.example/α", "a", "example.com/log "}
+
+// Uniform draws an (almost exactly) uniform integer in [0,n). rapid's integer
+// generators deliberately favour small values, which distorts percentages and class
+// weights; Bool is unbiased, so the number is assembled from Bool draws. It still
+// shrinks towards 0.
+func Uniform(t *rapid.T, n int, label string) int {
+	if n <= 1 {
+		return 0
+	}
+	nb := bits.Len(uint(n-1)) + 4
+	bs := rapid.SliceOfN(rapid.Bool(), nb, nb).Draw(t, label)
+	v := 0
+	for _, b := range bs {
+		v <<= 1
+		if b {
+			v |= 1
+		}
+	}
+	return v % n
+}
+
+// Pct is true with probability p/100.
+func Pct(t *rapid.T, p int, label string) bool {
+	if p <= 0 {
+		return false
+	}
+	return Uniform(t, 100, label) >= 100-p
+}
 
 func weighted(t *rapid.T, w map[string]int, label string) string {
 	keys := make([]string, 0, len(w))
@@ -48,7 +80,7 @@ func weighted(t *rapid.T, w map[string]int, label string) string {
 	if total == 0 {
 		return "grow"
 	}
-	x := rapid.IntRange(0, total-1).Draw(t, label)
+	x := Uniform(t, total, label)
 	for _, k := range keys {
 		if x < w[k] {
 			return k
@@ -58,10 +90,10 @@ func weighted(t *rapid.T, w map[string]int, label string) string {
 	return keys[len(keys)-1]
 }
 
-var opClassOrder = []string{"grow", "refresh", "fork", "wrongold", "badproof", "replay", "garbage", "unkroot", "oddroot", "wrongkey", "wrongorigin", "unknownlog", "smaller", "decorated", "zero"}
+var opClassOrder = []string{"grow", "refresh", "fork", "wrongold", "badproof", "replay", "garbage", "unkroot", "oddroot", "wrongkey", "wrongorigin", "unknownlog", "smaller", "decorated", "zero", "mismatch"}
 
 // DefaultWeights is the adversarial mix used by most history properties.
-var DefaultWeights = map[string]int{"grow": 30, "refresh": 8, "fork": 12, "wrongold": 8, "badproof": 12, "replay": 4, "garbage": 5, "unkroot": 3, "oddroot": 1, "wrongkey": 4, "wrongorigin": 3, "unknownlog": 2, "smaller": 4, "decorated": 4}
+var DefaultWeights = map[string]int{"grow": 30, "refresh": 8, "fork": 12, "wrongold": 8, "badproof": 12, "replay": 4, "garbage": 5, "unkroot": 3, "oddroot": 1, "wrongkey": 4, "wrongorigin": 3, "unknownlog": 2, "smaller": 4, "decorated": 4, "mismatch": 5}
 
 func genDelta(t *rapid.T, maxJump int, label string) int64 {
 	switch rapid.IntRange(0, 9).Draw(t, label+"_cls") {
@@ -81,8 +113,11 @@ func genDelta(t *rapid.T, maxJump int, label string) int64 {
 
 var proofMangles = []string{"empty", "drop", "dup", "flip", "extra", "swap", "short", "long", "random", "replay", "othersizes", "otherbranch", "nil"}
 
-func genBadProof(t *rapid.T, nbranches int) ProofSpec {
+func genBadProof(t *rapid.T, nbranches int, noReplay ...bool) ProofSpec {
 	k := rapid.SampledFrom(proofMangles).Draw(t, "mangle")
+	if len(noReplay) > 0 && noReplay[0] && k == "replay" {
+		k = "random"
+	}
 	ps := ProofSpec{Kind: k, I: rapid.IntRange(0, 12).Draw(t, "pi"), J: rapid.IntRange(0, 255).Draw(t, "pj")}
 	switch k {
 	case "othersizes":
@@ -119,7 +154,15 @@ func genExtra(t *rapid.T, p Profile, nlogs, nwk int) ([]string, []ExtraSig) {
 			if mj <= 0 {
 				mj = 5
 			}
-			x.N = rapid.IntRange(1, mj).Draw(t, "xn")
+			if mj > 20 {
+				// aim at the note format's limit of 100 signature lines
+				x.N = rapid.SampledFrom([]int{1, 2, 3, 10, 50, 95, 96, 97, 98, 99, 100, 101}).Draw(t, "xn")
+				if x.N > mj {
+					x.N = mj
+				}
+			} else {
+				x.N = rapid.IntRange(1, mj).Draw(t, "xn")
+			}
 		case "otherlog":
 			x.Key = rapid.IntRange(0, nlogs-1).Draw(t, "xkey")
 		case "stalewit", "stalewitlegacy", "forgedwit":
@@ -152,7 +195,7 @@ func GenHist(t *rapid.T, p Profile) *HistCase {
 		}
 		used[o] = true
 		kl := fmt.Sprintf("log%d", i)
-		if p.SharedKeys && i > 0 && rapid.IntRange(0, 2).Draw(t, "share") == 0 {
+		if p.SharedKeys && i > 0 && Uniform(t, 3, "share") == 2 {
 			kl = "log0"
 		}
 		name := "logkey" // shared key name as well as material when labels coincide
@@ -177,7 +220,20 @@ func GenHist(t *rapid.T, p Profile) *HistCase {
 		w = DefaultWeights
 	}
 	for i := 0; i < nops; i++ {
-		c.Ops = append(c.Ops, genOp(t, p, w, i, nlogs, nb, len(c.WKeys)))
+		op := genOp(t, p, w, i, nlogs, nb, len(c.WKeys))
+		if Pct(t, p.FaultPct, "faulty") {
+			op.Faults = []FaultSpec{{
+				Point: rapid.SampledFrom([]string{PWriteOps, PWriteGet, PWriteSet, PWriteClos}).Draw(t, "fpoint"),
+				Code:  rapid.SampledFrom([]string{"plain", "unavailable", "internal", "deadline"}).Draw(t, "fcode"),
+			}}
+		}
+		if op.Note == "refresh" && Pct(t, p.PlantPct, "plant") {
+			pl := op
+			pl.Kind, pl.Note, pl.Faults = "plant", "plant", nil
+			pl.TsAgo = int64(rapid.SampledFrom([]int{86400, 3600, 5, 400000000}).Draw(t, "plantago"))
+			c.Ops = append(c.Ops, pl)
+		}
+		c.Ops = append(c.Ops, op)
 	}
 	return c
 }
@@ -185,7 +241,7 @@ func GenHist(t *rapid.T, p Profile) *HistCase {
 func genOp(t *rapid.T, p Profile, w map[string]int, i, nlogs, nb, nwk int) Op {
 	cls := weighted(t, w, "cls")
 	op := Op{Kind: "update", Note: cls, Cp: CpSpec{Branch: -1, Origin: -1, Signer: -1}, Old: SizeSpec{Rel: "cur"}, Proof: ProofSpec{Kind: "correct"}}
-	if nlogs > 1 && rapid.IntRange(0, 99).Draw(t, "otherlog") < p.OtherLogPct {
+	if nlogs > 1 && Pct(t, p.OtherLogPct, "otherlog") {
 		op.Log = rapid.IntRange(1, nlogs-1).Draw(t, "logidx")
 	}
 	if !p.AllowZero {
@@ -198,7 +254,7 @@ func genOp(t *rapid.T, p Profile, w map[string]int, i, nlogs, nb, nwk int) Op {
 	switch cls {
 	case "grow":
 		grow()
-		if p.Decorate > 0 && rapid.IntRange(0, 99).Draw(t, "deco") < p.Decorate {
+		if Pct(t, p.Decorate, "deco") {
 			op.Cp.Ext, op.Cp.Extra = genExtra(t, p, nlogs, nwk)
 		}
 	case "zero":
@@ -220,7 +276,7 @@ func genOp(t *rapid.T, p Profile, w map[string]int, i, nlogs, nb, nwk int) Op {
 			pb := rapid.IntRange(0, nb-1).Draw(t, "fpb")
 			op.Proof.Branch = &pb
 		case 2:
-			op.Proof = genBadProof(t, nb)
+			op.Proof = genBadProof(t, nb, p.NoReplay)
 		default:
 			op.Proof.Kind = "empty"
 		}
@@ -252,7 +308,7 @@ func genOp(t *rapid.T, p Profile, w map[string]int, i, nlogs, nb, nwk int) Op {
 		}
 	case "badproof":
 		grow()
-		op.Proof = genBadProof(t, nb)
+		op.Proof = genBadProof(t, nb, p.NoReplay)
 	case "replay":
 		op.Cp.Replay = rapid.IntRange(1, i+1).Draw(t, "replayidx")
 		switch rapid.IntRange(0, 2).Draw(t, "rold") {
@@ -278,7 +334,7 @@ func genOp(t *rapid.T, p Profile, w map[string]int, i, nlogs, nb, nwk int) Op {
 		op.Cp.RootTag = rapid.IntRange(0, 3).Draw(t, "roottag")
 		op.Cp.Size = SizeSpec{Rel: "cur", N: int64(rapid.IntRange(0, 5).Draw(t, "udelta"))}
 		if rapid.Bool().Draw(t, "uproof") {
-			op.Proof = genBadProof(t, nb)
+			op.Proof = genBadProof(t, nb, p.NoReplay)
 		}
 	case "oddroot":
 		op.Cp.Root = rapid.SampledFrom([]string{"odd0", "odd5", "odd31", "odd33"}).Draw(t, "odd")
@@ -323,6 +379,16 @@ func genOp(t *rapid.T, p Profile, w map[string]int, i, nlogs, nb, nwk int) Op {
 			op.Proof.From = &SizeSpec{Rel: "sub"}
 			op.Proof.To = &SizeSpec{Rel: "cur"}
 		}
+	case "mismatch":
+		// same size as held, different root: another branch's tree or an unknown root
+		op.Cp.Size = SizeSpec{Rel: "cur"}
+		if rapid.Bool().Draw(t, "mmreal") {
+			op.Cp.Branch = rapid.IntRange(0, nb-1).Draw(t, "mmbranch")
+		} else {
+			op.Cp.Root = "rand"
+			op.Cp.RootTag = rapid.IntRange(0, 3).Draw(t, "mmtag")
+		}
+		op.Proof.Kind = rapid.SampledFrom([]string{"empty", "correct", "random"}).Draw(t, "mmproof")
 	case "decorated":
 		grow()
 		if rapid.IntRange(0, 3).Draw(t, "dsame") == 0 {
